@@ -358,3 +358,21 @@ Proof.
   apply (opt_fold_exhaust (GList l) (fun acc (x : triple) n => setitem eps acc (fst (fst x)) (snd (fst x)) n) (itertracks a) _ O (List.length l) H).
   apply gen_exhausted. lia.
 Qed.
+
+(* Timeline.to_annotation with a caller's name list that runs out before the segments do: refused (never an annotation
+   holding only the first segments); with enough names (no repetition) it is never refused *)
+Theorem to_annotation_exhausted eps t u m l : (List.length l < List.length t)%nat ->
+  to_annotation eps t u m (GList l) = None.
+Proof.
+  intro H. unfold to_annotation.
+  apply (opt_fold_exhaust (GList l) (fun acc (s : seg) n => setitem eps acc s default_track n) t _ O (List.length l) H).
+  apply gen_exhausted. lia.
+Qed.
+Theorem to_annotation_refused_iff eps t u m l : wf eps t -> NoDup l ->
+  (to_annotation eps t u m (GList l) = None <-> (List.length l < List.length t)%nat).
+Proof.
+  intros Hw Nd. split.
+  - intro Hn. destruct (Nat.lt_ge_cases (List.length l) (List.length t)) as [Hlt|Hge]; [exact Hlt|].
+    destruct (to_annotation_spec eps t u m (GList l) Hw (conj Nd Hge)) as [r [Hr _]]. congruence.
+  - apply to_annotation_exhausted.
+Qed.
